@@ -334,7 +334,7 @@ MUTANTS = [
     {"id": "c02-open-no-bounds", "file": F, "expect": "C02.R3",
      "old": "        if ifile < 0 or ifile >= len(self.files):", "new": "        if ifile < 0:"},
     {"id": "c02-dedisp-seek-elements", "file": R, "expect": "C02.R2",
-     "old": "        self._file.seek(start * self.samp_stride)\n        samples_read", "new": "        self._file.seek(start * self.header.nchans)\n        samples_read"},
+     "old": "        self._file.seek(first_sample * self.samp_stride)\n", "new": "        self._file.seek(first_sample * self.header.nchans)\n"},
 ]
 MUTANTS += [
     {"id": "c02-combined-last", "file": "sigpyproc/io/sigproc.py", "expect": "C02.R7",
